@@ -73,7 +73,7 @@ CLAIMED = {
             "DESIGN.md §2.7"),
     "C08": ("fault_enumeration",
             "rapid-generated prepare/execute histories with injected backend amnesia, restarts, late-joining hosts, concurrent bursts and scripted failures of the proxy's re-preparations; history invariant on client replies",
-            "1..3 clients over 2..4 hosts x 1..2 connections; hosts forget one id or everything, restart, or join after start-up; requests with the tracing flag and backends that attach warnings to UNPREPARED; an EXECUTE/BATCH of ids PREPAREd through the proxy must never be answered UNPREPARED, must succeed whenever fewer re-preparations are scripted to fail than hosts are up, and must always be answered.",
+            "1..3 clients over 2..4 hosts x 1..2 connections; hosts forget one id or everything, restart, or join after start-up; requests with the tracing flag and backends that attach warnings to UNPREPARED; an EXECUTE/BATCH of ids PREPAREd through the proxy must never be answered UNPREPARED, must succeed whenever fewer re-preparations are scripted to fail than hosts are up, and must always be answered; 'exhaust' sub-check: the same no-UNPREPARED oracle while 2040-2047 of 2048 stream ids per host are held and other clients compete with the proxy's re-PREPARE for the last free id.",
             "Statement texts are partitioned by client class (version, compression); sharing a text between classes is the recorded finding C08 cross-session-reprepare (separate 'shared' sub-check, reported as KNOWN-FINDING).",
             "DESIGN.md §2.8"),
     "C14": ("exploration",
